@@ -317,6 +317,9 @@ def try_layouts(n, tier):
         yield ((1, n, [], 0),)
     if n >= 3:
         yield ((0, 2, [(1, 2)], 1), (2, 3, [(2, 0)], None))
+        # two try ranges over one straight-line run whose handlers start where a block starts anyway: only the try starts
+        # themselves separate the ranges
+        yield ((0, 1, [(1, 0)], None), (1, 3, [(2, 0)], None))
         if tier != "quick":
             yield ((1, 2, [(1, 0), (2, 2)], None), (0, 1, [], 2))
             yield ((0, 3, [(3, 1)], None),)
